@@ -54,6 +54,10 @@ CHECKS = {
    technique="runtime monitor over the real Wal / Reader / repair code: generated record-length sequences and session splits, then every truncation offset and every single-byte and single-bit alteration of the file (exhaustive for small files, all positions around record and block boundaries plus a seeded sample for multi-block files), reader output compared with the appended records; same alterations through a store reopened in both recovery modes",
    text="For every altered copy the real reader must return byte-identical records forming a prefix of what was appended, containing every record that ends at or before the alteration, ending in end-of-log or a corruption report, without panicking; repair must keep exactly that prefix and leave a cleanly ending segment; records appended in a new session after a clean end or a repair must be read back. Store part: recovered state = a commit prefix with every commit lying before the alteration; absolute-consistency mode fails exactly when the reader reports corruption; a commit after recovery survives another reopen. Enumeration is exhaustive per small file and targeted per large file; the files themselves are generated.",
    note="Trusted: H5 wrappers (thin), record end offsets reported by the reader on the pristine file. Empty payloads are refused by append with an error (nothing appended), which the check accepts."),
+ "C13": dict(level="exploration", engine="component monitor (H5)", ref="DESIGN.md 3/C13",
+   technique="runtime differential monitor over the real TableWriter / Table / TableIterator: generated entry sets written under generated table-format options, every read operation compared with the sorted entry list",
+   text="Held on the generated tables (many versions per key, one key spanning blocks and index partitions, long shared prefixes, 0xff-terminated keys, prefix/extension keys, empty and pointer-sized values; block sizes 64..4096, restart intervals 1..16, partition sizes 64..4096, compression none/snappy per level, filter on/off) counted in the evidence: complete forward and backward iteration, seek to every stored (key, seq), its neighbours and absent keys followed by a step each way, point lookup for every key x snapshot of interest and absent keys, generated cursor programs under generated bounds, and the key-range shortcuts (never exclude a table that holds an entry inside the bounds). Entry sets and option sets are sampled; per table the lookup targets are enumerated.",
+   note="Trusted: H5 wrappers. Inverted / out-of-range cursor bounds are C09's business."),
  "C17": dict(level="exploration", engine="E3 + E5 watchdog", ref="DESIGN.md 3/C17, 2.7",
    technique="runtime stress monitor with a quiescence watchdog: tiny memtables, low stall thresholds, close() in the middle; a history is stuck only if calls are outstanding, no commit completes, the harness's own activity is paused and no thread of the process is runnable for 10 s; panics captured by a hook",
    text="Held on the stress histories counted in the evidence (2..16 committers, memtable stall 2..4, L0 stall 5..11, 2..4 levels, rotation/flush/compaction wake-ups from a maintenance task in half of them, close() mid-flight in a third) plus two directed scenarios for the compaction-scheduling stalls found. Unbounded 'eventually' is restated as bounded progress under the quiescence criterion; a wall-clock overrun with runnable threads is inconclusive, never a violation.",
